@@ -1,7 +1,7 @@
 // C20: concurrent enforcement against a serial oracle, under a watchdog.
 // stress <threads> <cached> <writer> <handle> <seed> <iters>
 use casbin::prelude::*;
-use casbin::{CachedEnforcer, CoreApi, MgmtApi};
+use casbin::{CachedEnforcer, CoreApi, MgmtApi, RbacApi};
 use std::sync::atomic::{AtomicBool, Ordering};
 use std::sync::{Arc, RwLock};
 use std::time::{Duration, Instant};
@@ -113,7 +113,17 @@ fn run<E: Enf>(mk: impl Fn(&tokio::runtime::Runtime) -> E, threads: usize, write
         let mut st = seed.wrapping_add(t as u64 * 7919 + 1);
         hs.push(std::thread::spawn(move || {
             let mut lastp = 0usize;
+            let rt_q = crate::eng::rt();
+            let mut nq = 0usize;
             for _ in 0..iters {
+                // now and then a role QUERY that itself enforces (get_implicit_users_for_permission): it must take the role
+                // manager's lock only for the moment of each lookup - a guard kept across its inner enforce calls would
+                // meet a queued handle writer and never return (the watchdog reports that as HANG)
+                nq += 1;
+                if nq % 211 == 7 {
+                    let g = shared.read().unwrap();
+                    let _ = rt_q.block_on(g.get_implicit_users_for_permission(vec!["data1".to_string(), "read".to_string()]));
+                }
                 // plain and context-qualified requests (another matcher over the same sections) interleave
                 let i = (lcg(&mut st) as usize) % (2 * reqs.len());
                 let d = {
